@@ -36,6 +36,11 @@ CHECKS = {
    text="For each of the 24 stateless charsets (22 registered + US-ASCII + UTF-8): every printable code point that round-trips through the codec (thorough: the whole Unicode range; quick: up to U+2FFFF for UTF-8/GB18030), as a one-character text under one read, every two-chunk split and byte-wise; plus all texts of length <=3 over 8 representatives per charset under every split, bare, inside paste brackets and with focus reports between characters, on entries with and without paste support.",
    note="x/text and gdamore/encoding codecs define the charsets (trusted base); U+FFFD excluded; ISO-2022-JP and HZ excluded by the statement.",
    design="2/C11"),
+ "C07": dict(level="exploration",
+   technique="exhaustive enumeration of database strings x parameter domains and of a bounded terminfo(5) program grammar x parameter vectors, against a reference interpreter cross-checked with ncurses tparm",
+   text="(1) every distinct parameterized string found in the live database, in LookupTerminfo's synthesized colour strings and among the sequences tcell prepares for itself, over its whole parameter domain; (2) all programs of a bounded grammar covering every operator, format, %i, dynamic/static variables across calls and all conditional structures to nesting depth 2 (thorough 3) with else-if chains, x 72 integer / 6 string parameter vectors (about 40k program sequences); (3) all byte strings up to length 5 (6) over the language's 16-symbol alphabet for panics. TParm is compared with a reference interpreter written from terminfo(5); the reference is validated against ncurses tparm on every integer-only case (millions, zero disagreements tolerated silently - any is reported).",
+   note="Cases the manual leaves undefined are counted, not compared; ncurses is reached through python3's curses module (if unavailable the run says so in its notes); bounded program size.",
+   design="2/C07"),
  # --- new checks above this line ---
 }
 
